@@ -23,3 +23,8 @@ Definition tval0 : tval := {| t_unix := 0; t_unixnano := 0; t_fmt := [] |}.
 Definition float_oracle : Type := gofl -> N -> Z -> Z -> list N.
 Definition strconv_AppendFloat (fo : float_oracle) (dst : list N) (val : gofl) (fmt : N) (prec bitSize : Z) : list N :=
   dst ++ fo val fmt prec bitSize.
+
+(* strings.EqualFold, restricted to ASCII letters (simple Unicode folding such as U+212A is outside this contract; the
+   level texts it is used for are ASCII) *)
+Definition ascii_lower (b : N) : N := if ((65 <=? b) && (b <=? 90))%N then (b + 32)%N else b.
+Definition strings_EqualFold (a b : list N) : bool := list_eqb N.eqb (map ascii_lower a) (map ascii_lower b).
